@@ -387,6 +387,21 @@ pub struct Snap {
     pub table: Vec<Entry>,
 }
 
+/// A private copy of the bytes a `&str` handed out by the crate points at.  The reference may dangle (that is what
+/// the monitors are there to find out), and the block it points into may just have been handed to THIS allocation:
+/// the copy must tolerate source == destination (`copy_nonoverlapping`, i.e. `to_vec` / `into`, aborts on that in
+/// builds with debug assertions).
+pub fn copy_out(s: &str) -> Box<[u8]> {
+    let len = s.len();
+    let mut v: Vec<u8> = Vec::with_capacity(len);
+    // Safety: `v` has room for `len` bytes; `copy` is a memmove
+    unsafe {
+        std::ptr::copy(s.as_ptr(), v.as_mut_ptr(), len);
+        v.set_len(len);
+    }
+    v.into_boxed_slice()
+}
+
 /// Builds a [`Snap`] from what the object reports
 pub fn make_snap<'a>(
     kind: Kind,
@@ -401,7 +416,7 @@ pub fn make_snap<'a>(
             idx,
             ptr: s.as_ptr() as usize,
             len: s.len(),
-            bytes: s.as_bytes().into(),
+            bytes: copy_out(s),
         })
         .collect();
     if kind == Kind::Threaded {
